@@ -57,6 +57,7 @@ pub fn dispatch(id: &str, tier: Tier, seed: u64, replay: Option<&str>) -> i32 {
         "dump2" => dump::run(2),
         "dump3" => dump::run(3),
         "tapdebug" => dump::tap_debug(),
+        "widestats" => dump::wide_stats(),
         _ => {
             eprintln!("unknown property {id}");
             2
